@@ -2337,7 +2337,19 @@ def _extract_block(body_toks, frm, to, a, rep):
         cb = match_close(body_toks, ob)
         rep.append(("R0", f"inline block: body of the match arm `{a['block_arm'][:60]}` wrapped as `{a['wrap']}`"))
         tail = a.get("tail", "")
-        return [T(PUNCT, "{"), T(WS, "\n")] + body_toks[ob + 1:cb] + [T("raw", "\n" + tail + "\n"), T(PUNCT, "}")]
+        arm = list(body_toks[ob + 1:cb])
+        if a.get("arm_of_loop"):
+            # the arm is the body of a `loop { select! { .. } }` iteration: `continue` (outside any loop of the arm itself) ends
+            # the processing of this event, i.e. returns from the wrapper
+            inner = find_loops(arm, 0, len(arm))
+            spans = [(br, match_close(arm, br)) for (_kw, br) in inner]
+            n_ = 0
+            for q, t in enumerate(arm):
+                if t.kind == IDENT and t.text == "continue" and not any(lo_ < q < hi_ for lo_, hi_ in spans):
+                    arm[q] = T(IDENT, "return"); n_ += 1
+            if n_:
+                rep.append(("R0", f"{n_} `continue` of the enclosing event loop -> `return` from the wrapper"))
+        return [T(PUNCT, "{"), T(WS, "\n")] + arm + [T("raw", "\n" + tail + "\n"), T(PUNCT, "}")]
     if a.get("block_last"):
         # the last statement of the function body (whatever its text): e.g. the final `if .. else ..` of a function whose
         # head is not within reach
